@@ -80,6 +80,7 @@ def make_items(cx, spec, nprog, nenv, streams=('corpus', 'fragment', 'shapes')):
     if 'layout' in streams:
         for i in range(nprog):
             items.append({'name': f'layout/{cx.seed}/{i}', 'src': gen.layout(cx.seed, i), 'nenv': nenv // 3, 'seed': cx.seed, 'stream': 'layout'})
+            items.append({'name': f'dense/{cx.seed}/{i}', 'src': gen.dense(cx.seed, i), 'nenv': nenv // 3, 'seed': cx.seed, 'stream': 'layout'})
     for it in items:
         it['ctx_fields'] = sorted(spec['ctx_fields']) if spec.get('ctx_fields') else None
         it['ctx_kinds'] = sorted(spec['ctx_kinds']) if spec.get('ctx_kinds') else None
@@ -166,6 +167,9 @@ def semantic_check(pid):
         for r in results:
             r['src'] = src_of.get(r['name'])
         stats, diffs = classify(cx, pid, spec, results)
+        if pid == 'C05':
+            import clichecks
+            stats['call_graph_exports'] = clichecks.callgraph_export(cx)
         if pid == 'C11':
             # failing-input search for the table obligations: the opcode sample whose declared effect deviates
             import extract, re as _re
